@@ -456,7 +456,7 @@ pub fn run(ctx: &Ctx) -> Report {
     rep.set("exhaustive", true);
     rep.set(
         "rule",
-        "for every n in 0..=30 and delta in -2..=2 the total size 192*2^n+delta is reached exactly as hook(zero prefix) + W_k^m with every k in 0..=30, m in {31,32,33,64,65} (thorough: {1,2,31,32,33,63,64,65,66}), in the slice / iterator / byte forms, without and with the correct size hint, on a fresh generator and on two kinds of reused ones (all 31 contexts populated by an earlier input / an earlier input digested under a small declared size; then reset()); after an accepted hint a second, much smaller declaration is attempted and must be refused without effect; the same for piece-poor inputs (zero prefix + a short tail); plus 'pieces, 7 real zero bytes, in-place zero skip, pieces' histories whose total lands on a border +-1; plus all sizes 0..=8200 and all borders for the warning; plus sizes around 96 GiB, 192 GiB and u64::MAX for the hard limit.  All cases are distinct by construction; non-trivial = the library is called and compared with the reference.",
+        "late declarations: every undeclared border case also carries a clone that declares the true total after the first group of chunks (and is fed in step from then on) and a clone that declares it after the last byte; both must be accepted and finalize exactly like the reference.  for every n in 0..=30 and delta in -2..=2 the total size 192*2^n+delta is reached exactly as hook(zero prefix) + W_k^m with every k in 0..=30, m in {31,32,33,64,65} (thorough: {1,2,31,32,33,63,64,65,66}), in the slice / iterator / byte forms, without and with the correct size hint, on a fresh generator and on two kinds of reused ones (all 31 contexts populated by an earlier input / an earlier input digested under a small declared size; then reset()); after an accepted hint a second, much smaller declaration is attempted and must be refused without effect; the same for piece-poor inputs (zero prefix + a short tail); plus 'pieces, 7 real zero bytes, in-place zero skip, pieces' histories whose total lands on a border +-1; plus all sizes 0..=8200 and all borders for the warning; plus sizes around 96 GiB, 192 GiB and u64::MAX for the hard limit.  All cases are distinct by construction; non-trivial = the library is called and compared with the reference.",
     );
     rep.assume("sizes above a few MiB are reached through hook H1 (zero prefix / in-place zero skip), whose equivalence with really feeding zeros is checked exhaustively for N < 4096 (thorough: 65536), around every border up to 192*2^13 (thorough: 2^24 ~ 3 GiB) and inductively (step(hook(N),0) == hook(N+1)) around every border up to 192 GiB");
     rep.assume("refmodel::ctph is ssdeep 2.14.1 (self-test)");
